@@ -30,6 +30,13 @@ func GroupBy(size int, underlying interface{}) (Iterator, error) {
 			groupSize++
 		}
 
+		if u.Kind() == reflect.Array && !u.CanAddr() {
+			// an array held by value cannot be sliced; slice a copy
+			a := reflect.New(u.Type()).Elem()
+			a.Set(u)
+			u = a
+		}
+
 		pos := 0
 		for pos < u.Len() {
 			e := pos + groupSize
